@@ -11,6 +11,7 @@
       where its match started; the public rules bind parse_error_base / std::exception / void / E as documented;
   (e) a function declared noexcept never raises (must_if::control::failure's conditional noexcept)."""
 import collections
+from ..exc import walk
 from .. import core, units, exc, frame, rewind, repo_units
 from ..mon_base import is_match_root
 from . import c09
@@ -68,6 +69,34 @@ def analyse_unit(path):
     pe, found = exc.check_parse_error_base(db)
     out['pe'] = (pe, found)
     return out
+
+
+def static_state_unit(path):
+    """function-local variables with static or thread storage that are not const, per function of one unit"""
+    db = core.DB([path])
+    out = []
+    for fn in db.order:
+        for d in [d for s2 in walk(fn.get('body'), lambda n: n.get('k') == 'Decl', []) for d in s2.get('decls', [])]:
+            if d.get('static') and not d.get('const'):
+                out.append((fn['q'], d.get('n'), d.get('t'), core.rel(d.get('loc') or ''), '/tao/pegtl/' in fn['pat']))
+    return out
+
+
+def static_state(R, kinds, paths):
+    """X-state: no function of the library keeps mutable state in a static or thread_local local variable: error texts, positions and results are functions of the
+    arguments (a what() assembled in a reused stream keeps the tail of an earlier, longer message).  Zero instances are expected in the library; a positive
+    control in the universe must be found on every run."""
+    res = repo_units.map_units('sa.checks.c05', 'static_state_unit', paths)
+    found = set(); control = False
+    for pth, items in res.items():
+        for q, n, t, loc, lib in items:
+            if q == 'vu::static_state_control': control = True
+            elif lib: found.add((q.split('<')[0], n, t, loc))
+    kinds['state'] += 1
+    R.ob(ok=not found, key='static-state')
+    for q, n, t, loc in sorted(found):
+        R.violation('X-state', '%s::%s' % (loc.split(':')[0], q.replace(T, '')), 'keeps state between calls in the %s local `%s` (%s): what it returns is no longer a function of its arguments' % ('static / thread_local', n, t), key=('state', q, n))
+    if not control: R.broke('the positive control of the static-state scan (vu::static_state_control) was not found')
 
 
 def demangle_witnesses(R, kinds):
@@ -155,6 +184,7 @@ def run(tier):
             R.violation('X-bind', 'rules.hpp::%s' % name[len(T):], 'is bound to %s catching %s, documented: %s catching %s' % ((br.get('tn') or base).replace(T, ''), got_ex, itn.replace(T, ''), ex_t))
     if nb < 8: R.broke('only %d public try_catch rules found (floor 8)' % nb)
     demangle_witnesses(R, kinds)
+    static_state(R, kinds, paths + core.extract(list(units.BITS) + list(units.INPUTS)))
     R.cov['obligations_by_kind'] = dict(kinds)
     for k, fl in (('name', 30), ('must', 8), ('raise-rule', 4), ('try-catch', 16), ('normal-raise', 4), ('nothrow', 10), ('equiv-raise', 20)):
         if kinds.get(k, 0) < fl: R.broke('only %d %s obligations (floor %d)' % (kinds.get(k, 0), k, fl))
